@@ -137,7 +137,48 @@ def plan_c12(tier):
     )
 
 
+HMC_ROOTS = ["0,0", "1,4", "2,4", "2,1", "3,4", "3,1", "4,4", "5,4", "6,4", "7,0", "8,0", "9,4", "9,1", "10,4", "10,1", "11,4", "12,4", "13,4"]
+HMC_RULE = ("explicit-state search by replay over the real crate under the oracle allocator: states = canonical keys of the concrete handle pool (representation, offsets, lengths, capacities, "
+            "reference counts, control blocks, allocation sizes, lineage; modulo address renaming and slot permutation), transitions = every enabled operation of the alphabet with every boundary argument "
+            "(0,1,len-1,len,cap-1,cap,alloc-len, +1 variants, usize::MAX / isize::MAX class) on every live handle, from each of 18 root constructors (all representations, payload 0/1/4), "
+            "<= 3 handles, second root allowed; after every transition all oracles run and a drop-all epilogue checks the ledger. distinct_nontrivial = transitions that changed the canonical state")
+
+
+def hmc_workers(prop, depth, profiles, parities, flags, roots=None, alphabet="full", extra_depth=None):
+    ws = []
+    for prof in profiles:
+        for par in parities:
+            for r in (roots or HMC_ROOTS):
+                d = depth
+                if extra_depth and r in extra_depth:
+                    d = extra_depth[r]
+                ws.append(W("hmc", ["explore", "--root", r, "--depth", str(d), "--parity", par, "--alphabet", alphabet, "--property", prop] + flags, profile=prof, crash_property=prop))
+    return ws
+
+
+def plan_hmc(prop, flags_quick, flags_thorough, oracle_text, profiles_quick=("rel",), both_profiles_thorough=True):
+    def plan(tier):
+        if tier == "thorough":
+            ws = hmc_workers(prop, 5, ["rel", "dbg"] if both_profiles_thorough else ["rel"], ["even", "odd"], flags_thorough)
+            for alph, d in (("bytes", 7), ("bytesmut", 7), ("conv", 8)):
+                ws += hmc_workers(prop, d, ["rel"], ["even", "odd"], flags_thorough + ["--no-ooc", "--no-huge"], roots=["2,4", "3,4", "5,4", "9,4", "10,4"], alphabet=alph)
+        else:
+            ws = hmc_workers(prop, 4, list(profiles_quick), ["even", "odd"], flags_quick)
+        return dict(workers=ws, level="model_checking", distinct_is_max=False, rule=HMC_RULE + "; oracle of this check: " + oracle_text,
+                    bounds="quick: depth 4 (root + 4 operations), full alphabet incl. out-of-contract arguments, both parities; thorough: depth 5 in rel+dbg x even+odd plus focused alphabets (Bytes-only, BytesMut structure, conversions) to depth 7-8",
+                    assumptions=["buffers <= 6 bytes; arguments are the listed boundary values", "data independence: byte values are not part of the state key (they are compared with the model on every execution)",
+                                 "the hook descriptors are used only for the state key, never as an oracle"])
+    return plan
+
+
 PLANS = {
+    "C01": plan_hmc("C01", [], [], "after every step every live handle's bytes, len, Buf::remaining/chunk equal an independent Vec<u8> model with globally unique payload bytes; Vec::from results compared"),
+    "C02": plan_hmc("C02", ["--oom-probes"], ["--oom-probes"], "allocator ledger (unknown/interior/double/wrong-layout frees), canaries and poison verified after every step, containment of every non-empty handle in one live block or registered region, process status (crash handler), fork-isolated allocatable-but-huge requests", profiles_quick=("rel", "dbg")),
+    "C03": plan_hmc("C03", ["--perms"], ["--perms"], "drop-all epilogue after every transition and in every permutation at every new canonical state: no crate-attributed block live, no double free; instrumented owner: as_ref once, dropped exactly once, not before the last view, also when as_ref panics"),
+    "C04": plan_hmc("C04", [], [], "BytesMut capacity regions pairwise disjoint, disjoint from visible Bytes, inside one live block; fill-spare writes invisible elsewhere; reserve/try_reclaim promises incl. unrepresentable sizes", profiles_quick=("rel", "dbg")),
+    "C07": plan_hmc("C07", [], [], "per transition: listed sharing operations allocate no align-1 block and every resulting non-empty handle (for split_off/split_to also empty ones) starts at source address + logical offset"),
+    "C08": plan_hmc("C08", ["--probes"], ["--probes"], "is_unique() evaluated on every live Bytes in every state against physical sharing (allocator map) and a conservative lineage relation; try_into_mut Ok iff unique, same address; sole-owner probes: try_reclaim(n) true for n in {0,1,T-1,T} and reserve(n) without allocator events"),
+    "C13": plan_hmc("C13", [], [], "every out-of-contract action at every reachable state must panic (or be the documented no-op) and leave ptr/len/cap/bytes of every handle unchanged; exploration continues and the epilogue checks release", profiles_quick=("rel", "dbg")),
     "C09": plan_c09,
     "C10": plan_c10,
     "C11": plan_c11,
